@@ -1180,6 +1180,9 @@ class Interp:
             return Sym(FALSE)
         if full in self.w.class_ids:
             return ClassV(full)
+        alias = "_" + full          # C accelerator modules: queue.Empty is _queue.Empty, socket.socket's base is _socket.socket ...
+        if alias in self.w.class_ids:
+            return ClassV(alias)
         if full in self.B.MODULE_NAMES:
             return ModV(full)
         return BuiltinV(full)
